@@ -261,7 +261,7 @@ def exhaustive_skeletons(max_nodes: int, double_wrap_upto: int = 3, refs_upto: i
 
 ALPHABET = ["a", "b", "Z", " ", " ", "<", ">", "&", '"', "'", "\\", "{", "}", "%", "#", "/", "-", "_", ".", "*",
             "é", "ß", "中", "\U0001F35E", "​", "́", "<b>", "&amp;", "</td>", "1", "0"]
-UNITS = [None, None, "g", "kg", "tsp", "Cups", "ml", "lb", "sack", "<i>", "fl&oz", "TBSP", "pint"]
+UNITS = [None, None, "g", "kg", "tsp", "Cups", "ml", "lb", "sack", "<i>", "fl&oz", "TBSP", "pint", "Mug", "Handfuls", "big Sprigs", "É-cup"]
 
 
 def rand_text(rng: random.Random, lo: int = 1, hi: int = 8) -> str:
@@ -289,9 +289,51 @@ def rand_svs(rng: random.Random) -> Any:
     return SVS(parts)
 
 
+_UNIT_POOLS: Optional[Tuple[List[str], List[str]]] = None
+
+
+def unit_pools() -> Tuple[List[str], List[str]]:
+    """(names of units that have conversions, names of units known to the unit system WITHOUT conversions),
+    every name, alias and plural the live recipe_grid.units.UNIT_SYSTEM knows, sorted."""
+    global _UNIT_POOLS
+    if _UNIT_POOLS is None:
+        from recipe_grid.units import UNIT_SYSTEM
+        conv: List[str] = []
+        lone: List[str] = []
+        for name in sorted(set(UNIT_SYSTEM.iter_names())):
+            (conv if len(list(UNIT_SYSTEM.iter_conversions_from(name))) > 1 else lone).append(name)
+        _UNIT_POOLS = (conv, lone)
+    return _UNIT_POOLS
+
+
+def as_written(rng: random.Random, name: str) -> str:
+    """A spelling of a unit name as an author may write it (the unit system lower-cases before look-up)."""
+    r = rng.random()
+    if r < 0.5:
+        return name
+    if r < 0.75:
+        return name[:1].upper() + name[1:]
+    if r < 0.9:
+        return name.upper()
+    return "".join(ch.upper() if rng.random() < 0.5 else ch for ch in name)
+
+
+def rand_unit(rng: random.Random) -> Optional[str]:
+    r = rng.random()
+    if r < 0.4:
+        return rng.choice(UNITS)
+    conv, lone = unit_pools()
+    if r < 0.7 and lone:
+        # known to the unit system but without conversions (clove, tin, packs, boxen, ...): aliases and plurals
+        return as_written(rng, rng.choice(lone))
+    if conv:
+        return as_written(rng, rng.choice(conv))
+    return rng.choice(UNITS)
+
+
 def rand_quantity(rng: random.Random) -> Any:
     from recipe_grid.recipe import Quantity
-    unit = rng.choice(UNITS)
+    unit = rand_unit(rng)
     return Quantity(rand_number(rng), unit, rng.choice(("", " ", "  ")) if unit is not None else "",
                     rng.choice(("", " of", " of the", " <of>", " &")))
 
